@@ -1,16 +1,93 @@
 from vlib.props import prop
 
+# counters of harness/c14_listmode.cxx (ctx.count names); values observed with seed 1: about twice the thresholds
+_min_obs_quick = {
+    # part H: LmToProjData against the exactly-once event counter
+    "events_generated": 3000000, "events_in_frames": 2500000, "events_out_of_range": 500000,
+    "events_with_time_equal_to_frame_start": 250000, "events_with_time_equal_to_frame_end": 200000,
+    "delayed_events_counted": 300000,
+    "bins_compared": 250000000, "batching_settings_compared": 100000, "runs_multi_pass": 50000, "runs_single_pass": 50000,
+    "passes_rewound": 150000,
+    "mode_all-events": 4000, "mode_single-frame": 4000, "mode_multi-frame": 4000, "mode_num_events_to_store": 4000,
+    "cutoff_cases": 8000, "cut_offs_reached": 6000, "cut_offs_beyond_end_of_stream": 1500,
+    "multi_frame_file_runs": 5000, "frame_partitions": 4000,
+    "cfg_prompts_minus_delayeds": 9000, "cfg_prompts_only": 2000, "cfg_delayeds_only": 2000,
+    "cfg_nontof": 8000, "cfg_tof": 2500, "cfg_tof_mashed": 1200,
+    "cfg_axial_compression": 6000, "cfg_view_mashing": 3500, "cfg_tangential_truncation": 4500,
+    "cfg_frame_without_time_mark": 250,
+    # part G: list-mode objective function against the projection-data objective function of the histogram
+    "lm_gradient_voxels_compared": 1500000, "lm_full_gradient_voxels_compared": 700000,
+    "cfg_gradient_nontof": 2000, "cfg_gradient_tof": 1000, "cfg_gradient_additive": 2000, "cfg_gradient_no_additive": 1000,
+    "cfg_gradient_record_cache": 2000, "cfg_gradient_no_cache": 1000, "cfg_gradient_subsets": 1000,
+}
+# thorough was run once (seed 1, fixed tree) with asan 5000 / rel 100000 cases: HELD, 57 min at 6 jobs on a loaded machine
+# (asan 2287 s, rel 1156 s); the counts below are cut to fit about 25-30 min at 6 jobs
+_THOROUGH_FACTOR = 2
+
 prop("C14",
      harness="c14_listmode",
      runs={
          "quick": [dict(flavour="asan", cases=1500), dict(flavour="rel", cases=30000)],
-         "thorough": [dict(flavour="asan", cases=1000), dict(flavour="rel", cases=10000)],
+         "thorough": [dict(flavour="asan", cases=2000), dict(flavour="rel", cases=60000)],
      },
-     min_nontrivial={"quick": 2, "thorough": 2},
-     min_obs={"quick": {}, "thorough": {}},
-     rule="TBD",
-     technique="TBD",
-     level_text="TBD",
-     level_note="TBD",
-     assumptions=[],
+     min_nontrivial={"quick": 60000, "thorough": 150000},
+     min_obs={"quick": _min_obs_quick,
+              "thorough": {k: _THOROUGH_FACTOR * v for k, v in _min_obs_quick.items()}},
+     rule=("case = one generated (scanner, list-mode stream, template, selection) world.  Scanner: cylindrical, 8..32/48 detectors per "
+           "ring, 1..5/6 rings (part G: 8..20/28, 1..3/4), optional TOF (3/5/9/15 timing bins) and intrinsic tilt.  Stream: a harness-side CListModeData "
+           "subclass (events derived from CListEventCylindricalScannerWithDiscreteDetectors, so get_bin goes through the real "
+           "detector-pair map) replaying 60..400/900 prompt and delayed coincidences with unique ids and random detector pairs, "
+           "rings and unmashed TOF index (about a fifth outside the template: ring difference, tangential range, TOF range), "
+           "interleaved with 0..24 millisecond time marks (events before the first mark, repeated marks, marks exactly on / one ms "
+           "beside frame boundaries, and - keyed separately - frames that contain no time mark).  4 of 5 cases (part H) run "
+           "LmToProjData with a template of random span (odd/even/mixed), maximum ring difference, view mashing, TOF mashing, "
+           "truncated tangential and segment range, the list-mode object reporting either the template's or another sampling of the "
+           "scanner, store prompts-delayeds / prompts only / delayeds only, in one of four modes by case index: all events; every "
+           "single frame of a 1..2-frame partition; a 2..5-frame partition (optionally with a frame dropped) through per-frame "
+           "Interfile output, its last frame in memory and the whole interval as one frame; num_events_to_store inside the stream / "
+           "equal to the total / beyond the end.  Every in-memory selection is repeated for all (or up to ~2(S+T)+6 sampled) "
+           "pairs (num_segments_in_memory, num_TOF_bins_in_memory) incl. -1 and values above the number available, alternately "
+           "on a fresh list-mode object and on a shared one after reset().  1 of 5 cases (part G) builds the list-mode objective "
+           "function (ray-tracing matrix with random symmetry switches / cache / 1-2 tangential rays, optional additive term, "
+           "projection-data or trivial normalisation, 1..views subsets, all events / one frame of 1..3 / num_events_to_use, "
+           "events read directly or through record-cache files of 3..40 or 100000 records, optional max segment) and the "
+           "projection-data objective function on the histogram that LmToProjData makes of the same events.  sub-evaluation = one "
+           "(selection, batching setting) run; non-trivial = at least 20 events were counted into at least 2 different bins; "
+           "distinct = distinct (case descriptor, selection, batching setting)"),
+     technique=("runtime monitoring: the real LmToProjData and list-mode objective function are driven by a synthetic in-memory "
+                "list-mode object (STIR's documented extension point) and compared bin by bin with an independent exactly-once "
+                "event counter, and voxel by voxel with the projection-data objective function and a float64 event sum, under "
+                "ASan/UBSan/asserts and at -O2"),
+     level_text=("for tens of thousands of generated streams x templates x selections every bin of LmToProjData's output (pre-filled "
+                 "with a poison value, so unwritten bins are seen) must equal the count obtained by walking the event list once: "
+                 "time of an event = last time mark before it (0 before the first), in frame iff start <= time < end, bin = the "
+                 "template's get_bin_for_det_pos_pair, in range of the template, +1 per prompt, -1 per delayed when both are stored, "
+                 "+1 per delayed when only delayeds are stored, stop when the net number stored reaches num_events_to_store; the "
+                 "output must be bit-identical for every num_segments_in_memory x num_TOF_bins_in_memory setting (the rewinds are "
+                 "counted at the ListModeData boundary; a rewind to a position that was never saved is an error); per-frame files "
+                 "of a partition must have the template's geometry, equal the per-frame count and add up bin for bin to the "
+                 "histogram of the whole interval; with set_output_projdata_sptr the last frame is what is returned (as documented). "
+                 "Part G: sub-gradient+sensitivity and (non-TOF) the full sub-gradient of the list-mode objective function must "
+                 "equal those of the projection-data objective function on the histogram within 2x the computed float32 band, and "
+                 "their sums over subsets must equal the float64 sum over events of A_e^T(1/(A_e lambda + c_e)) on the rows of an "
+                 "identically configured matrix.  Detection validated on planted mutations: rewind to the first frame's saved "
+                 "position, frame end inclusive (LmToProjData and objective function), delayeds subtracted in delayeds-only mode, "
+                 "num_events_to_store counting only events whose segment is in memory, last tangential position dropped"),
+     level_note=("trusted: the event counter and comparison code in harness/c14_listmode.cxx; the detector-pair map of the template "
+                 "geometry (C01 checks it) and, for part G, the projection-matrix rows (C03) and the projection-data objective "
+                 "function (C05).  Not exercised: real file formats (SAFIR, ECAT8, ... record decoding needs scanner files), "
+                 "pre-/post-normalisation inside LmToProjData, the interactive mode, LmToProjDataBootstrap, TOF data mashed to a "
+                 "single TOF position through Interfile files (header cannot be read back: an Interfile matter), "
+                 "num_events_to_use of the objective function when the events span several record-cache batches (the class counts "
+                 "per batch; neither the statement nor the documentation defines it), use_tofsens, the objective function's value "
+                 "and Hessian"),
+     assumptions=["time marks are non-decreasing and frame ends are >= 20 ms (process_data ignores time marks for frames ending before "
+                  "0.01 s, which is how it implements 'no frame definitions')",
+                  "templates are non-arc-corrected (is_valid_template of discrete-detector events rejects anything else) and the "
+                  "list-mode object and the template share the scanner (process_data rejects anything else)",
+                  "part G keeps count/estimate quotients below 500 (the projection-data class documents a cap of 1e4 that the "
+                  "list-mode class applies differently), uses at least one in-range prompt and never an exactly full last cache batch "
+                  "(LM_distributable_computation asserts a non-empty batch)",
+                  "the full-gradient comparison (data term minus subset sensitivity) is made for non-TOF data only: the subset "
+                  "sensitivities of TOF data are C05's subject (see its known finding on their subset assignment)"],
      )
